@@ -22,6 +22,7 @@ pub mod c13;
 pub mod c14;
 pub mod c17;
 pub mod c18;
+pub mod cli;
 
 pub struct Ctx<'a> {
     pub rep: &'a mut Report,
@@ -139,6 +140,8 @@ pub fn custom_by_id(id: &str) -> Option<CustomRun> {
         "C12" => Some(c12::run),
         "C13" => Some(c13::run),
         "C14" => Some(c14::run),
+        "C15" => Some(cli::run_c15),
+        "C16" => Some(cli::run_c16),
         "C17" => Some(c17::run),
         "C18" => Some(c18::run),
         _ => None,
